@@ -287,6 +287,15 @@ def vec_setitem(ex, st, o, v, i, val, node):
             cv = coerce_elem(v, val0)
             st.put(o, v.with_(at=lambda k: merge_val(_b(iv.at(k)), cv, v.at(k))))
             return [st]
+        if iv.nz is not None and isinstance(val0, Vec) and (v.kind == "array" or isinstance(v.idx, RangeIdx)):
+            # x[np.nonzero(mask)[0]] = values: value number r goes to the r-th True position, everything else stays
+            used(ex, "x[np.nonzero(mask)[0]] = values writes values[r] to the r-th True position")
+            mask_at, rank, n_mask = iv.nz
+            ex.oblig("len_eq", "L%s" % getattr(node, "lineno", "?"), st,
+                     z3.And(to_z3(val0.n) == to_z3(iv.n), to_z3(n_mask) == to_z3(v.n)))
+            st.put(o, v.with_(at=lambda k, v=v, val0=val0, mask_at=mask_at, rank=rank:
+                              merge_val(_b(mask_at(k)), coerce_elem(v, val0.at(rank(k))), v.at(k))))
+            return [st]
         raise Unsupported("fancy-index store")
     if isinstance(iv, int) or (is_z3(iv) and iv.sort() == I):
         if v.kind == "series" and not isinstance(v.idx, RangeIdx):
@@ -1053,6 +1062,50 @@ def np_where(ex, st, args, kwargs, node):
         raise Unsupported("np.where scalar cond")
     return st.alloc(Vec(c.n, lambda k: merge_val(_b(c.at(k)), a.at(k) if isinstance(a, Vec) else a,
                                                  b.at(k) if isinstance(b, Vec) else b), idx=c.idx, kind=c.kind))
+
+
+@builtin("numpy.nonzero")
+def np_nonzero(ex, st, args, kwargs, node):
+    c = st.get(args[0])
+    probe = c.at(z3.IntVal(0)) if isinstance(c, Vec) else None
+    if not isinstance(c, Vec) or len(args) != 1 or kwargs or not ((is_z3(probe) and probe.sort() == B) or isinstance(probe, bool)):
+        raise Unsupported("np.nonzero of a non-boolean / non-vector")
+    used(ex, "np.nonzero(mask)[0] = the True positions, in increasing order")
+    m, sel = compress(ex, st, c.n, c.at, "nz")
+    rank = compress.last_rank
+    v = Vec(m, lambda j, sel=sel: sel(to_z3(j)), elt=dsl.Int, kind="array", nz=(c.at, (lambda k, rank=rank: rank(to_z3(k))), c.n))
+    return (st.alloc(v),)
+
+
+@builtin("numpy.zeros_like", "numpy.ones_like")
+def np_zeros_like(ex, st, args, kwargs, node):
+    v = st.get(args[0])
+    if not isinstance(v, Vec) or len(args) != 1 or kwargs:
+        raise Unsupported("np.zeros_like of a non-vector")
+    one = node.func.attr == "ones_like"
+    probe = v.at(z3.IntVal(0))
+    if isinstance(probe, NF) or (is_z3(to_z3(probe)) and to_z3(probe).sort() == R):
+        c, elt = NF(False, z3.RealVal(1 if one else 0)), dsl.NReal
+    elif is_z3(to_z3(probe)) and to_z3(probe).sort() == I:
+        c, elt = z3.IntVal(1 if one else 0), dsl.Int
+    else:
+        raise Unsupported("np.zeros_like of this element type")
+    return st.alloc(Vec(v.n, lambda k, c=c: c, elt=elt, kind="array"))
+
+
+@vm("take")
+def v_take(ex, st, o, args, kwargs, node):
+    v = st.get(o)
+    iv = st.get(args[0])
+    if v.kind != "array" or not isinstance(iv, Vec) or len(args) != 1 or kwargs:
+        raise Unsupported("take: ndarray.take(index array) only")
+    used(ex, "ndarray.take(idx) = the elements at the listed positions, in order")
+    k = fresh(I, "k")
+    with binding(k):
+        inb = z3.And(0 <= to_z3(iv.at(k)), to_z3(iv.at(k)) < to_z3(v.n))
+    ex.oblig("index_bounds", "L%s" % getattr(node, "lineno", "?"), st,
+             z3.ForAll([k], z3.Implies(z3.And(0 <= k, k < to_z3(iv.n)), inb)))
+    return st.alloc(Vec(iv.n, lambda j: v.at(to_z3(iv.at(j))), elt=v.elt, kind="array"))
 
 
 @builtin("numpy.average")
